@@ -237,6 +237,16 @@ static SymCase gen_sym(Rng& rng, unsigned n, int kind)
 			break;
 		}
 	}
+	// the whole matrix rescaled by an exact power of two (1e-12 .. 1e12): spectrum, residuals and convergence tests are all relative to ||M||, so the same
+	// decisions must be taken at every scale (seeded change C15-r3m3 made the convergence test of the QR iteration absolute)
+	if(rng.coin(0.35))
+	{
+		double sc = std::ldexp(1.0, rng.irange(-40, 40));
+		for(auto& x : C.S.a)
+			x *= sc;
+		for(auto& l : C.lam)
+			l *= sc;
+	}
 	return C;
 }
 
